@@ -75,6 +75,9 @@ func vC08Gen(c *vh.Case) vC08Sc {
 	if r.Intn(7) == 0 {
 		sc.SlowMs = 1 + r.Intn(60)
 	}
+	if sc.CancelAt == 0 && r.Intn(25) == 0 {
+		sc.CancelAt = -time.Duration(1 + r.Intn(2)) // -1: context cancelled before the call, -2: deadline already expired
+	}
 	return sc
 }
 
@@ -89,7 +92,7 @@ func vC08AddrStrings(as []ma.Multiaddr) []string {
 
 func TestVerif_C08_findprov(t *testing.T) {
 	vh.Run(t, vh.Spec{Prop: "C08", Unit: "findprov", Quick: 2000, Thorough: 60000, CostMs: 5,
-		Rule:    "PRNG networks as C01 (N 1-230, thorough up to 730; K/alpha/beta menus; knowledge full/kbucket/sparse; 0-35% responders dead/erroring/silent); a pool of 0-14 providers (simulated peers, strangers, occasionally the local node; with or without addresses); each responder holds a PRNG subset, advertising each provider with or without its addresses (so the same provider is first seen without and later with addresses), some answers list a provider twice; 0-4 providers stored locally (with/without addresses); count in {0,1,2,5,K,100}; latencies 1-400 ms decide arrival order; 1/7 cancelled at a PRNG instant; 1/7 with a slow consumer; oracle over the values received (virtual receive time) and the GET_PROVIDERS requests/answers of the simulated wire log; non-trivial = at least two answers naming providers were processed and (count>0 was reached, or a provider was repeated, or count=0 with >= 2 distinct providers); distinct by (shape, count, arrival order of naming answers)",
+		Rule:    "PRNG networks as C01 (N 1-230, thorough up to 730; K/alpha/beta menus; knowledge full/kbucket/sparse; 0-35% responders dead/erroring/silent); a pool of 0-14 providers (simulated peers, strangers, occasionally the local node; with or without addresses); each responder holds a PRNG subset, advertising each provider with or without its addresses (so the same provider is first seen without and later with addresses), some answers list a provider twice; 0-4 providers stored locally (with/without addresses); count in {0,1,2,5,K,100}; latencies 1-400 ms decide arrival order; 1/7 cancelled at a PRNG instant, 1/25 called with a context that is already cancelled or past its deadline; 1/7 with a slow consumer; oracle over the values received (virtual receive time) and the GET_PROVIDERS requests/answers of the simulated wire log; non-trivial = at least two answers naming providers were processed and (count>0 was reached, or a provider was repeated, or count=0 with >= 2 distinct providers); distinct by (shape, count, arrival order of naming answers)",
 		Clauses: []string{"yielded-was-named", "yielded-addresses-named", "at-most-count", "repeat-only-adds-addresses", "stops-asking-at-count", "count0-yields-all-named", "channel-closed-in-time", "channel-closed-after-cancel", "repeat-seen", "count-reached-seen"}},
 		func(c *vh.Case) {
 			sc := vC08Gen(c)
@@ -239,6 +242,16 @@ func vC08Run(t *testing.T, c *vh.Case, sc vC08Sc) {
 		defer tm.Stop()
 	}
 	start := time.Now()
+	switch sc.CancelAt {
+	case -1:
+		cancelNs.Store(start.UnixNano())
+		cancel()
+	case -2:
+		var dc context.CancelFunc
+		ctx, dc = context.WithDeadline(ctx, start.Add(-time.Second))
+		defer dc()
+		cancelNs.Store(start.UnixNano())
+	}
 	ch := n.D.FindProvidersAsync(ctx, cidKey, sc.Count)
 	var ys []vC08Yield
 	// Half of the cancelled searches have a consumer that stops reading at the cancellation (the
